@@ -316,7 +316,8 @@ end prim
 /-- `Streams.stream` seen from the store -/
 def Store.getD' (S : Store) (k : Nat) : Stream := (S.get? k).getD { key := k, id := 0 }
 
-theorem stream_eq (s : Streams) (k : Nat) : s.stream k = Store.getD' s.store k := rfl
+@[crp_store] theorem stream_eq (s : Streams) (k : Nat) : s.stream k = Store.getD' s.store k := by
+  rw [Streams.stream, Store.getD']
 
 theorem Store.getD'_of_get? {S : Store} {k : Nat} {st : Stream} (h : S.get? k = some st) : Store.getD' S k = st := by
   unfold Store.getD'; rw [h]; rfl
